@@ -154,7 +154,26 @@ func BuildProps(s *Shape, o BuildOpts) map[string]*schema.PropertySchema {
 	for _, p := range s.Props {
 		var d schema.Display
 		if p.HasDisp {
-			d = schema.NewDisplayValue(schema.PointerTo("Property "+p.Name), schema.PointerTo("Generated property."), nil)
+			// every combination of the three optional display fields occurs (chosen by the property's name)
+			h := 0
+			for _, ch := range p.Name {
+				h = h*31 + int(ch)
+			}
+			name, descr, icon := schema.PointerTo("Property "+p.Name), schema.PointerTo("Generated property."), schema.PointerTo("<svg/>")
+			switch h % 6 {
+			case 0:
+				d = schema.NewDisplayValue(name, descr, nil)
+			case 1:
+				d = schema.NewDisplayValue(name, nil, nil)
+			case 2:
+				d = schema.NewDisplayValue(nil, descr, nil)
+			case 3:
+				d = schema.NewDisplayValue(nil, nil, icon)
+			case 4:
+				d = schema.NewDisplayValue(name, descr, icon)
+			default:
+				d = schema.NewDisplayValue(nil, nil, nil)
+			}
 		}
 		ps := schema.NewPropertySchema(BuildWith(p.T, o), d, p.Required, p.ReqIf, p.ReqIfNot, p.Conflicts, p.Default, nil)
 		if p.Disabled {
